@@ -1,0 +1,31 @@
+//go:build verif
+
+// Round 4, area E: the HTTP client constructor used by the auth query (C11), checked by nsqvc. Comment-only file.
+
+package http_api
+
+// NewDeadlineTransport (assumed): a new http.Transport; builds a net.Dialer method value (outside the subset), touches no modelled state.
+//@ func NewDeadlineTransport(connectTimeout time.Duration, requestTimeout time.Duration) *http.Transport
+//@   trusted
+//@   nochan
+//@   ensures result != nil && fresh(result)
+//@   modifies
+
+// NewClient: a new client whose transport carries exactly the TLS configuration it was given and whose overall timeout is the request
+// timeout. r4EHC*: the arguments of the most recent call (so that a caller's contract can say "the TLS configuration is passed as given").
+//@ ghost r4EHCCalls int
+//@ ghost r4EHCTLS *tls.Config
+//@ ghost r4EHCConnTO int
+//@ ghost r4EHCReqTO int
+//@ ghostgroup r4EHCCalls, r4EHCTLS, r4EHCConnTO, r4EHCReqTO
+//@ func NewClient(tlsConfig *tls.Config, connectTimeout time.Duration, requestTimeout time.Duration) *Client
+//@   props C11
+//@   nochan
+//@   ensures[new] result != nil && fresh(result) && result.c != nil && fresh(result.c)
+//@   ensures[tls-as-given] dyntype(result.c.Transport) == typetag("*http.Transport") && unbox(result.c.Transport, "*http.Transport") != nil && unbox(result.c.Transport, "*http.Transport").TLSClientConfig == tlsConfig
+//@   ensures[timeout-as-given] result.c.Timeout == requestTimeout
+//@   modifies r4EHCCalls
+//@   onreturn r4EHCCalls := r4EHCCalls + 1
+//@   onreturn r4EHCTLS := tlsConfig
+//@   onreturn r4EHCConnTO := connectTimeout
+//@   onreturn r4EHCReqTO := requestTimeout
